@@ -30,6 +30,7 @@ CLASS_PROPERTY = {
     "hang": None,
     "stuck": None,
     "abort": None,
+    "guard_violated": None,
     "panic": None,
     "half_published": "C05",
     "panic_swallowed": "C05",
